@@ -26,7 +26,42 @@ const (
 	vEncI16 = 5
 	vEncI8  = 6
 	vEncRec = 7 // *encode.TypeEncoder over a struct (reflection-driven codec)
+	vEncOpt = 8 // application encoder: uint16, 0 encodes to zero bytes, anything else to 2 bytes LE
 )
+
+// vOptU16 is an application-defined encoder whose encodings are either empty or of one
+// fixed width: slim stores such values as a fixed-size leaf array with absent elements
+// (presence bitmap + rank), a layout none of the stock encoders produces.
+type vOptU16 struct{}
+
+func (vOptU16) Encode(d interface{}) []byte {
+	v := d.(uint16)
+	if v == 0 {
+		return []byte{}
+	}
+	return []byte{byte(v), byte(v >> 8)}
+}
+
+func (vOptU16) Decode(b []byte) (int, interface{}) {
+	if len(b) == 0 {
+		return 0, uint16(0)
+	}
+	return 2, uint16(b[0]) | uint16(b[1])<<8
+}
+
+func (vOptU16) GetSize(d interface{}) int {
+	if d.(uint16) == 0 {
+		return 0
+	}
+	return 2
+}
+
+func (vOptU16) GetEncodedSize(b []byte) int {
+	if len(b) == 0 {
+		return 0
+	}
+	return 2
+}
 
 // vRec is a fixed-size record as an application would store it behind a TypeEncoder.
 type vRec struct {
@@ -69,6 +104,8 @@ func (c *vT) encoder() encode.Encoder {
 			c.tenc, _ = encode.NewTypeEncoder(vRec{})
 		}
 		return c.tenc
+	case vEncOpt:
+		return vOptU16{}
 	}
 	return encode.U16{}
 }
@@ -102,6 +139,15 @@ func (c *vT) symValues() {
 		for i := range c.u16 {
 			c.u16[i] = vU16("v")
 		}
+	case vEncOpt:
+		c.u16 = make([]uint16, n)
+		nz := false
+		for i := range c.u16 {
+			c.u16[i] = vU16("v")
+			nz = vOr(nz, c.u16[i] != 0)
+		}
+		// all-empty encodings are the zero-width case (no leaf array at all, nil values)
+		vAssume(nz)
 	case vEncStr:
 		c.str = make([]string, n)
 		for i := range c.str {
@@ -558,7 +604,7 @@ func (c *vT) encOf(i int) []byte {
 		return c.encoder().Encode(c.i16[i])
 	case vEncI8:
 		return c.encoder().Encode(c.i8[i])
-	case vEncU16:
+	case vEncU16, vEncOpt:
 		return c.encoder().Encode(c.u16[i])
 	}
 	return nil
@@ -820,6 +866,31 @@ func (c *vT) intVal(j int) int {
 	return int(c.u16[j])
 }
 
+// query: a symbolic string of length lq, optionally followed by a concrete tail of
+// "qtail" bytes (queries much longer than any key: 33, 70, ... bytes beyond a leaf or a
+// stored prefix), and optionally preceded by the i-th key ("qkey" = i+1, -1 = each key in turn: every string that
+// extends an indexed key by lq symbolic bytes and the tail).
+func (c *vT) query(lq int) string {
+	q := vString("q", lq)
+	if k := vParamDef("qkey", 0); k != 0 && c.n > 0 {
+		idx := k - 1
+		if k < 0 {
+			idx = vChoice(c.n) // every key, one path each
+		}
+		if idx < c.n {
+			q = c.keys[idx] + q
+		}
+	}
+	if t := vParamDef("qtail", 0); t > 0 {
+		tail := make([]byte, t)
+		for i := range tail {
+			tail[i] = byte('a' + i%3)
+		}
+		q += string(tail)
+	}
+	return q
+}
+
 func (c *vT) run(check int, lq int) {
 	switch check {
 	case 4:
@@ -827,27 +898,27 @@ func (c *vT) run(check int, lq int) {
 	case 41:
 		c.checkC04Refuse(lq)
 	case 13:
-		q := vString("q", lq)
+		q := c.query(lq)
 		c.checkC13(q)
 	case 19:
 		c.checkC19()
 	case 5:
-		q := vString("q", lq)
+		q := c.query(lq)
 		c.checkC05(q)
 	case 1:
 		c.checkC01()
 	case 2:
 		c.checkC02()
 	case 3:
-		q := vString("q", lq)
+		q := c.query(lq)
 		c.checkExact(q, "C03")
 	case 9:
 		c.checkC09()
 	case 10:
-		q := vString("q", lq)
+		q := c.query(lq)
 		c.checkC10(q)
 	case 14:
-		q := vString("q", lq)
+		q := c.query(lq)
 		c.checkC14(q)
 		if vParamDef("allkeys", 0) == 1 {
 			// every indexed key as the query: reaches every leaf position of the packed
